@@ -7,6 +7,9 @@
  * in flight (fatal alert in the handshake or on the established session), an abandoned handshake, a credential reset,
  * a direct chain validation against the shared CA list, a PRNG draw, or a handshake with a credential borrowed from
  * another thread's logical client (so that one cache entry / ticket is resumed by several threads at once).
+ * Every ECDHE client offers exactly one curve (P-256/P-384/P-521; neighbouring clients and threads differ), so the shared
+ * ephemeral-key cache keeps being regenerated while other sessions copy from it.  revq / revhs: revocation queries for,
+ * and handshakes against, a certificate that every CRL of its (only ever psCRL_Update-refreshed) issuer class revokes.
  * Between any two library calls a per-thread seeded PRNG injects sched_yield() or a few microseconds of nanosleep().
  *
  * Every operation is logged in a per-thread buffer (no stdio, no shared monitor memory while the threads run) with
@@ -18,7 +21,7 @@
  * checks/c20.py does the sequential-explainability check and the overlap statistics.
  * The real PRNG (/dev/urandom behind psGetPrngLocked) and the real clock are used: nothing is wrapped.
  *
- * usage: c20 --seed S --threads N --ops K --out file [--keys <repo>/testkeys] [--crl cls:file.der,...] [--empty 1] */
+ * usage: c20 --seed S --threads N --ops K --out file [--keys <repo>/testkeys] [--crl cls:file.der,...] [--pin dir] [--empty 1] */
 #define _GNU_SOURCE
 #include "vf.h"
 #include "matrixssl/matrixsslApi.h"
